@@ -73,3 +73,34 @@ Qed.
 Example ex5_heights :
   map (fun n => d_height (n_disk (run ex_exec (ex_g 2) (firstn n ex5_hist)))) [5; 6; 7; 8; 9; 10; 11]%nat = [1; 3; 3; 3; 3; 5; 5].
 Proof. vm_compute. reflexivity. Qed.
+
+(* REFINEMENT FROM TRANSLATED CODE.  The loop the histories above run, [try_sync], is what Manager.trySyncNextBlock
+   does — the Go function itself (block/sync.go), translated from /repo's source on every run (coq/gen/GoLiteFuns.v: one
+   iteration of its endless loop, with Manager.updateState inside it) and evaluated by Model/GoLite.v against scripted
+   collaborators (Check/GoLiteSync.v: [go_trySyncNextBlock], for ALL worlds).  For EVERY loop state of the model and
+   every executor, the translated iteration
+     - returns nil, having written nothing, exactly when [try_sync] stops for want of the next header or data;
+     - returns an error, having written nothing and not having called the executor, exactly when [try_sync] halts;
+     - otherwise goes round again after the durable writes of [block_writes] in the model's order — block, state,
+       height (fix f41125c) — which is the write sequence the crash points of the histories cut. *)
+From Verif Require Proofs.GoLiteSyncRefine.
+Theorem C05_translated_sync_refines_try_sync_full : forall exec (f : nat) (st : loopst),
+  exists o, Check.GoLiteSync.run_sync (GoLiteSyncRefine.sworld_of st) = Some o /\
+    let next := (d_height (l_disk st) + 1)%N in
+    match Syncer.lookup (c_hdrs (l_cache st)) next, Syncer.lookup (c_data (l_cache st)) next with
+    | Some sh, Some d =>
+        if validate (l_last st) sh d then
+          Check.GoLiteSync.so_result o = [Check.GoLiteSync.continue_v] /\
+          exists st', try_sync exec (S f) st = try_sync exec f st' /\
+                      exists ws, l_ws st' = (l_ws st ++ ws)%list /\
+                                 GoLiteSyncRefine.reaching_disk (d_height (l_disk st)) (GoLiteSyncRefine.code_writes o)
+                                 = flat_map GoLiteSyncRefine.kind_of_wr ws
+        else
+          Check.GoLiteSync.so_result o = [Model.GoLite.VErr true] /\ GoLiteSyncRefine.code_writes o = [] /\
+          GoLiteSyncRefine.executor_called o = false /\ try_sync exec (S f) st = GoLiteSyncRefine.halted st
+    | _, _ =>
+        Check.GoLiteSync.so_result o = [Model.GoLite.VNil] /\ GoLiteSyncRefine.code_writes o = [] /\
+        GoLiteSyncRefine.executor_called o = false /\ try_sync exec (S f) st = st
+    end.
+Proof. exact GoLiteSyncRefine.translated_sync_refines_try_sync. Qed.
+Print Assumptions C05_translated_sync_refines_try_sync_full.
